@@ -153,6 +153,8 @@ class gcvar(object):
         self._header = self._parent._data[start:start +
                                           _hdr_size].view(dht)
         self.category = self._header['category'][0].strip()
+        if hasattr(self.category, 'decode'):
+            self.category = self.category.decode()
         self.tracerid = self._header['tracerid'][0]
         self.base_units = self._header['base_units'][0]
         self.catoffset = [row['offset']
@@ -161,8 +163,6 @@ class gcvar(object):
         self.noscale = self._parent.noscale
         STARTK, STARTJ, STARTI = self._header['start'][0][::-1] - 1
         self.STARTK, self.STARTJ, self.STARTI = STARTK, STARTJ, STARTI
-        if hasattr(self.category, 'decode'):
-            self.category = self.category.decode()
         self.cattracerid = self.catoffset + self.tracerid
         props = ([row for row in self._parent._tdata
                   if row['tracerid'] == self.cattracerid] +
@@ -356,19 +356,20 @@ class bpch2(bpch_base):
         tpath = os.path.join(os.path.dirname(path), 'tracerinfo.dat')
         if not os.path.exists(tpath):
             tpath = 'tracerinfo.dat'
-        self._tdata = np.recfromtxt(tpath, dtype=None, comments='#', names=[
+        self._tdata = np.genfromtxt(tpath, dtype=None, comments='#', names=[
                                     'shortname', 'fullname', 'kgpermole',
                                     'carbon', 'tracerid', 'scale', 'units'],
                                     delimiter=[9, 30, 10, 3, 9, 10, 41],
-                                    autostrip=True)
+                                    autostrip=True).view(np.recarray)
 
     def _getdiaginfo(self, path):
         dpath = os.path.join(os.path.dirname(path), 'diaginfo.dat')
         if not os.path.exists(dpath):
             dpath = 'diaginfo.dat'
-        self._ddata = np.recfromtxt(dpath, dtype=None, comments='#', names=[
+        self._ddata = np.genfromtxt(dpath, dtype=None, comments='#', names=[
                                     'offset', 'category', 'comment'],
-                                    delimiter=[9, 40, 100], autostrip=True)
+                                    delimiter=[9, 40, 100],
+                                    autostrip=True).view(np.recarray)
 
 # OFFSET    (I8 )  Constant to add to tracer numbers in order to distinguish
 #                  for the given diagnostic category, as stored in file
